@@ -55,6 +55,7 @@ one_read(uint32_t addr, uint32_t n)
             first_unmapped = (long)(addr + k);
             break;
         }
+    const unsigned wcalls_before = inst.cb_writes;
     RegisterAccess a = register_block_read(&inst.t, addr, n, buf);
     char ctx[220];
     snprintf(ctx, sizeof ctx, "table{%.100s} read(addr=%u,n=%u)", rt_describe(d), addr, n);
@@ -90,6 +91,8 @@ one_read(uint32_t addr, uint32_t n)
     }
     if (!rt_compare_storage(&inst, "read-changes-table", "window=any", ctx))
         rt_sync_model_from_storage(&inst);
+    if (inst.cb_writes != wcalls_before)
+        vh_fail("read-writes-device", "window=any", "%s: a block read called write callbacks %u times", ctx, inst.cb_writes - wcalls_before);
 }
 
 static void
